@@ -1,5 +1,6 @@
 import GroupbyVerif.Props.C02
 import GroupbyVerif.Props.C04
+import GroupbyVerif.Generated.Constants
 import GroupbyVerif.Props.C03
 import GroupbyVerif.Model.Composite
 import GroupbyVerif.Lemmas.Margins
@@ -361,5 +362,11 @@ example :
     varFrom ((C03.srcRun .sumSquares .f 2 [(0, .num 1), (1, .num 5), (0, .num 3), (0, .nan)]).1 0)
       ((C03.srcRun .sum .f 2 [(0, .num 1), (1, .num 5), (0, .num 3), (0, .nan)]).1 0)
       ((C03.srcRun .count .f 2 [(0, .num 1), (1, .num 5), (0, .num 3), (0, .nan)]).1 0) 1 = some 2 := by decide +kernel
+
+/-- `GroupBy.var` has the shape `varFrom` stands for (re-extracted from the AST of `core.py` on every run): the
+one-pass formula `(sum_squares - sum ** 2 / count) / denominator` from three reductions, with the denominator
+`count - ddof` where `count > ddof` and null elsewhere -/
+theorem source_var_shape :
+    Generated.Constants.varOnePassFormula = true ∧ Generated.Constants.varNullWhenCountLeDdof = true := by decide
 
 end GV.C16
